@@ -21,7 +21,7 @@ RULE = (
     "E2 exploration over REAL two-process executions (the real ExternalOptimizer parent and the real runner child, started "
     "through a PATH shim that wraps the child's request function and pipe communicator with a message counter and a fault "
     "injector). (a) trace equality: a configuration alphabet {slsqp plain; with bounds + linear + non-linear constraints; "
-    "mask; small max_functions; NaN at evaluation k (TOO_FEW_REALIZATIONS); user abort at evaluation k; nelder-mead; "
+    "mask; small max_functions; a start point handed to the step that differs from the configured initial values; NaN at evaluation k (TOO_FEW_REALIZATIONS); user abort at evaluation k; nelder-mead; "
     "differential_evolution(seed); two optimizations run one after the other in the same process with 'external/scipy/<method>' "
     "names} is run in-process and as external/<method>: evaluator request bytes, result bytes and "
     "exit code must be equal. (b) crash points: with M messages exchanged in the baseline run, for EVERY m <= M the child is "
@@ -38,8 +38,8 @@ ASSUMPTIONS = [
     "a hang is detected by the wall-clock horizon of 120 s per execution",
 ]
 BOUNDS = {
-    "quick": "(a) 4 configurations; (b) crash points at every message of a short baseline run, 2 death modes + raise; (c) every evaluation; (d) every index, both sides",
-    "thorough": "(a) all 9 configurations; (b) every message x 5 fault kinds on two configurations; (c), (d) as quick on two configurations",
+    "quick": "(a) 5 configurations; (b) crash points at every message of a short baseline run, 2 death modes + raise; (c) every evaluation; (d) every index, both sides",
+    "thorough": "(a) all 10 configurations; (b) every message x 5 fault kinds on two configurations; (c), (d) as quick on two configurations",
 }
 HORIZON = 120
 
@@ -180,7 +180,11 @@ def worker(case: dict[str, Any]) -> dict[str, Any]:
     out: dict[str, Any] = {"code": None, "exception": None}
     start = time.time()
     try:
-        out["code"] = plan.run_step(step, config=config).name
+        if "start" in name.split(":")[1:]:
+            # a start point that differs from the configured initial values
+            out["code"] = plan.run_step(step, config=config, variables=np.array([0.3, -0.1, 0.7])).name
+        else:
+            out["code"] = plan.run_step(step, config=config).name
     except BaseException as exc:  # noqa: BLE001
         out["exception"] = f"{type(exc).__name__}: {str(exc)[:200]}"
     out["wall"] = round(time.time() - start, 2)
@@ -205,6 +209,8 @@ def worker(case: dict[str, Any]) -> dict[str, Any]:
                 break
             time.sleep(0.2)
         out["runner_pids"] = len(list(Path(piddir).glob("*.pid")))
+        out["fault_fired"] = len(list(Path(piddir).glob("*.fired")))
+        out["requests"] = max([int(entry.read_text() or 0) for entry in Path(piddir).glob("*.requests")], default=0)
     out["alive"] = alive
     return out
 
@@ -284,6 +290,11 @@ def judge(case: dict[str, Any]) -> Judgement:
             j.fail("external-run-did-not-start-a-runner", case=case)
         return j
     if kind == "crash":
+        if not run.get("fault_fired"):
+            # the run ended before the child issued request number `at`: nothing was injected, nothing to judge
+            j.trivial = True
+            j.outcome = "crash:not-reached"
+            return j
         j.outcome = f"crash:{fault['kind']}:{'error' if run['exception'] else run['code']}"
         if run["exception"] is None and run["code"] == "OPTIMIZER_STEP_FINISHED":
             j.fail(f"optimizer-process-death-reported-as-success:{fault['kind']}", at=fault["at"], case=case)
@@ -305,19 +316,19 @@ def judge(case: dict[str, Any]) -> Judgement:
     raise ValueError(kind)
 
 
-EQUAL_CONFIGS = ["slsqp", "slsqp:constraints", "slsqp:mask", "slsqp:maxfun", "slsqp:relative", "nelder-mead", "de"]
+EQUAL_CONFIGS = ["slsqp", "slsqp:constraints", "slsqp:mask", "slsqp:maxfun", "slsqp:relative", "slsqp:start", "nelder-mead", "de"]
 
 
 def message_count(config: str) -> int:
-    """Messages exchanged by the child in the fault-free run: config, initial_values and one per evaluation."""
+    """Requests issued by the child in the fault-free run, as counted by the shim (config, initial_values, one per evaluation)."""
     run = execute({"kind": "equal", "config": config, "external": True})
-    return 2 + run.get("evaluations", 0)
+    return run.get("requests") or 2 + run.get("evaluations", 0)
 
 
 def shards(tier: str, seed: int) -> list[dict[str, Any]]:
     quick = tier == "quick"
     out: list[dict[str, Any]] = []
-    equal = ["slsqp", "slsqp:constraints", "de", "slsqp:relative"] if quick else EQUAL_CONFIGS
+    equal = ["slsqp", "slsqp:constraints", "de", "slsqp:relative", "slsqp:start"] if quick else EQUAL_CONFIGS
     for name in equal:
         out.append({"kind": "equal", "config": name, "external": True})
     # two optimizations in one process: what the first one leaves behind must not change the second
